@@ -28,4 +28,6 @@ var verifHarnesses = map[string]func(){
 	"VerifC11Stop": VerifC11Stop,
 	"VerifC19ChainIdThenLaunch": VerifC19ChainIdThenLaunch,
 	"VerifC19LaunchMany": VerifC19LaunchMany,
+	"VerifC07DoubleVoting": VerifC07DoubleVoting,
+	"VerifC05NewValidatorHook": VerifC05NewValidatorHook,
 }
